@@ -490,6 +490,8 @@ class HeldListFlow:
         # id(fn) -> [module, fn, names of node parameters, names of parameters that may be the held list]
         self.fns: dict[int, list] = {}
         self._cfgs: dict[int, object] = {}
+        # functions whose returned value is being classified (a call chain that comes back to one of them adds nothing certain)
+        self._returning: set[int] = set()  # functions whose returned value is being classified (the stack of _returned)
 
     # -- per function
     def is_node(self, mod: Module, fn: ast.AST, e: ast.AST, depth: int = 0) -> bool:
@@ -604,8 +606,9 @@ class HeldListFlow:
         except Exception:
             return None
 
-    def bind_args(self, mod: Module, fn: ast.AST, call: ast.Call, g: ast.FunctionDef) -> tuple[set[str], set[str]]:
-        """(parameters of g that receive a node, parameters of g that may receive the held list) at this call"""
+    def bind_args(self, mod: Module, fn: ast.AST, call: ast.Call, g: ast.FunctionDef, depth: int = 0) -> tuple[set[str], set[str]]:
+        """(parameters of g that receive a node, parameters of g that may receive the held list) at this call; `depth` is the
+        budget already used by the classification this is part of (it does not start again at a call boundary)"""
         ps = params_of(g)
         pairs: list[tuple[str, ast.expr]] = []
         for i, a in enumerate(call.args):
@@ -618,22 +621,30 @@ class HeldListFlow:
             if k.arg is not None and k.arg in names:
                 pairs.append((k.arg, k.value))
         nodes = {p for p, a in pairs if self.is_node(mod, fn, a)}
-        held = {p for p, a in pairs if self.classify(mod, fn, a) == "held"}
+        held = {p for p, a in pairs if self.classify(mod, fn, a, depth + 1) == "held"}
         return nodes, held
 
-    def _returned(self, gm: Module, g: ast.FunctionDef, mod: Module, fn: ast.AST, call: ast.Call, depth: int, seen: frozenset) -> str:
-        """what a call of the module function g gives back"""
-        if depth > 3 or g is fn:
-            return "unknown"
+    def _returned(self, gm: Module, g: ast.FunctionDef, mod: Module, fn: ast.AST, call: ast.Call, depth: int, seen: frozenset) -> Optional[str]:
+        """what a call of the module function g gives back.  A function whose result is being worked out already (direct or
+        mutual recursion: evalPart -> evalX -> evalPart) adds nothing to it: what the recursion can give back is what the
+        other returns give back - None, which _combine() leaves out"""
         if any(isinstance(n, (ast.Yield, ast.YieldFrom)) for n in own_nodes(g)):
             return "new"  # a generator object
-        nodes, held = self.bind_args(mod, fn, call, g)
-        if nodes or held:
-            self.enter(gm, g, nodes, held)
-        rets = [n.value for n in own_nodes(g) if isinstance(n, ast.Return) and n.value is not None]
-        if not rets:
-            return "new"
-        return _combine([self.classify(gm, g, r, depth + 1, frozenset()) for r in rets])
+        if g is fn or id(g) in self._returning:
+            return None
+        if depth > 6:
+            return "unknown"
+        self._returning.add(id(g))
+        try:
+            nodes, held = self.bind_args(mod, fn, call, g, depth)
+            if nodes or held:
+                self.enter(gm, g, nodes, held)
+            rets = [n.value for n in own_nodes(g) if isinstance(n, ast.Return) and n.value is not None]
+            if not rets:
+                return "new"
+            return _combine([self.classify(gm, g, r, depth + 1, frozenset()) for r in rets])
+        finally:
+            self._returning.discard(id(g))
 
     # -- across functions
     def enter(self, mod: Module, fn: ast.FunctionDef, nodes: set[str], held: set[str]) -> bool:
@@ -691,3 +702,281 @@ class HeldListFlow:
                         return True
                     todo += [v for _k, v in bindings_of(fn, n.id)]
         return False
+
+
+# --------------------------------------------------------------------------------------------------------------------
+# control flow under an assumption (rule c of checks/c15.py): what runs when a given test is known to hold
+# --------------------------------------------------------------------------------------------------------------------
+def tri_eval(e: ast.expr, atom) -> Optional[bool]:
+    """Kleene value of a boolean expression; atom(sub-expression) -> True / False / None (unknown)"""
+    v = atom(e)
+    if v is not None:
+        return v
+    if isinstance(e, ast.UnaryOp) and isinstance(e.op, ast.Not):
+        v = tri_eval(e.operand, atom)
+        return None if v is None else (not v)
+    if isinstance(e, ast.BoolOp):
+        vals = [tri_eval(x, atom) for x in e.values]
+        if isinstance(e.op, ast.And):
+            if any(x is False for x in vals):
+                return False
+            return True if all(x is True for x in vals) else None
+        if any(x is True for x in vals):
+            return True
+        return False if all(x is False for x in vals) else None
+    if isinstance(e, ast.NamedExpr):
+        return tri_eval(e.value, atom)
+    return None
+
+
+def _head_parts(n: ast.AST) -> list[ast.AST]:
+    """the part of a compound statement that its control-flow node evaluates (the whole statement for a simple one)"""
+    if isinstance(n, (ast.If, ast.While)):
+        return [n.test]
+    if isinstance(n, (ast.For, ast.AsyncFor)):
+        return [n.iter, n.target]
+    if isinstance(n, (ast.With, ast.AsyncWith)):
+        return list(n.items)
+    if isinstance(n, ast.Match):
+        return [n.subject]
+    if isinstance(n, (ast.FunctionDef, ast.AsyncFunctionDef, ast.ClassDef, ast.ExceptHandler)):
+        return []
+    return [n]
+
+
+def live_nodes(part: ast.AST, atom) -> Iterator[ast.AST]:
+    """the sub-expressions of `part` that can be evaluated under the assumption: the arm of a conditional expression (and the
+    tail of an and / or) that the assumption rules out is left out; nested functions / lambdas are not entered"""
+    stack: list[ast.AST] = [part]
+    while stack:
+        n = stack.pop()
+        yield n
+        if isinstance(n, (ast.FunctionDef, ast.AsyncFunctionDef, ast.ClassDef, ast.Lambda)) and n is not part:
+            continue
+        if isinstance(n, ast.IfExp):
+            v = tri_eval(n.test, atom)
+            stack.append(n.test)
+            if v is not False:
+                stack.append(n.body)
+            if v is not True:
+                stack.append(n.orelse)
+            continue
+        if isinstance(n, ast.BoolOp):
+            for x in n.values:
+                stack.append(x)
+                v = tri_eval(x, atom)
+                if v is not None and v == isinstance(n.op, ast.Or):
+                    break  # short circuit: the rest is not evaluated
+            continue
+        stack.extend(ast.iter_child_nodes(n))
+
+
+def executed_assuming(fn: ast.AST, atom) -> list[ast.AST]:
+    """every expression / simple statement of fn (not of nested functions) that control can reach from the entry in a state in which
+    atom() gives the truth of the conditions it knows: the branch of an if / while / conditional expression that the
+    assumption rules out is not taken (exception edges stay)"""
+    from .cfg import CFG
+
+    g = CFG(fn)
+    seen: set[int] = set()
+    stack = [g.entry]
+    out: list[ast.AST] = []
+    while stack:
+        n = stack.pop()
+        if n in seen:
+            continue
+        seen.add(n)
+        node = g.nodes[n]
+        verdict = None
+        if node.ast is not None:
+            for part in _head_parts(node.ast):
+                out.extend(live_nodes(part, atom))
+            if node.kind == "test":
+                verdict = tri_eval(node.ast.test, atom)  # type: ignore[attr-defined]
+        for m in g.succ[n]:
+            lab = g.edge_label.get((n, m), "")
+            # out of a test: "true" = into the body; "false" / no label = the else branch / falling through to what follows
+            if verdict is not None and lab != "exc" and (lab == "true") != verdict:
+                continue
+            stack.append(m)
+    return out
+
+
+# --------------------------------------------------------------------------------------------------------------------
+# state a method leaves on its object (rule a of checks/c15.py, Expr.eval): writes to self - made by the method itself, by the
+# methods it calls through self, by a context manager of self that it enters - and whether a `finally` takes them back
+# --------------------------------------------------------------------------------------------------------------------
+_SELF_MUTATORS = {"append", "extend", "pop", "update", "clear", "insert", "remove", "setdefault", "popitem", "add", "discard",
+                  "move_to_end", "__setitem__", "__delitem__", "__setattr__", "__delattr__", "sort", "reverse"}
+
+
+def class_methods_with_bases(mod: Module, cname: str, depth: int = 0) -> dict[str, ast.FunctionDef]:
+    """name -> method for the class and, behind it, its base classes defined in the same module (the first definition wins)"""
+    if not mod.has(cname) or depth > 6:
+        return {}
+    out = dict(mod.methods(cname))
+    for b in mod.cls(cname).bases:
+        if isinstance(b, ast.Name) and b.id != cname:
+            for k, v in class_methods_with_bases(mod, b.id, depth + 1).items():
+                out.setdefault(k, v)
+    return out
+
+
+def _rooted_at(e: ast.AST, me: str) -> bool:
+    while isinstance(e, (ast.Attribute, ast.Subscript)):
+        e = e.value
+    return isinstance(e, ast.Name) and e.id == me
+
+
+def _is_none(e: Optional[ast.AST]) -> bool:
+    return isinstance(e, ast.Constant) and e.value is None
+
+
+class SelfState:
+    """For one method `entry` of a class: the writes to the object that a call of it performs and does not certainly take back.
+
+    A *write* is `self.X = v` / `self.X: T = v` / `self.X op= v` with v not the constant None (attribute X), and anything else that
+    changes the object: a store or del through a subscript / deeper attribute rooted in self, del self.X, setattr(self, ..), a
+    mutating method called on self or on something rooted in it (attribute None: cannot be taken back).  `self.X = None` is the
+    *reset* of X.  A write of X is taken back when it lies in the body / a handler / the else of a `try` whose `finally` resets X
+    (directly or through a method of self that does), or directly in front of such a `try` with nothing but other plain attribute
+    stores in between - then the reset runs on every way out, an exception included.  Writes of a method called through self
+    (`self.h(..)`, also as the context manager of a `with`: a generator-based context manager runs its `finally` around a
+    `yield` when the block is left, by an exception as well) that the callee does not take back itself count at the call, where
+    an enclosing `try .. finally` of the caller may take them back."""
+
+    def __init__(self, mod: Module, cname: str):
+        self.mod = mod
+        self.methods = class_methods_with_bases(mod, cname)
+        self.n_writes = 0
+        self.visited: list[ast.FunctionDef] = []
+
+    # -- one function
+    def writes(self, fn: ast.FunctionDef) -> list[tuple[Optional[str], ast.stmt, ast.AST]]:
+        ps = params_of(fn)
+        if not ps:
+            return []
+        me = ps[0]
+        out: list[tuple[Optional[str], ast.stmt, ast.AST]] = []
+        for n in own_nodes(fn):
+            tgs: list[ast.expr] = []
+            val: Optional[ast.AST] = None
+            if isinstance(n, ast.Assign):
+                tgs, val = [x for t in n.targets for x in (t.elts if isinstance(t, (ast.Tuple, ast.List)) else [t])], n.value
+            elif isinstance(n, ast.AnnAssign) and n.value is not None:
+                tgs, val = [n.target], n.value
+            elif isinstance(n, ast.AugAssign):
+                tgs, val = [n.target], n
+            elif isinstance(n, ast.Delete):
+                tgs, val = list(n.targets), n
+            elif isinstance(n, (ast.For, ast.AsyncFor)):
+                tgs, val = [x for x in ast.walk(n.target) if isinstance(x, (ast.Attribute, ast.Subscript))], n
+            for t in tgs:
+                if isinstance(t, ast.Starred):
+                    t = t.value
+                if not (isinstance(t, (ast.Attribute, ast.Subscript)) and _rooted_at(t, me)):
+                    continue
+                plain = isinstance(t, ast.Attribute) and isinstance(t.value, ast.Name) and not isinstance(n, (ast.Delete, ast.For, ast.AsyncFor))
+                if plain and _is_none(val) and not isinstance(n, ast.AugAssign):
+                    continue  # a reset
+                out.append((t.attr if plain else None, n, t))  # type: ignore[union-attr, arg-type]
+            if isinstance(n, ast.Call):
+                st = self._stmt_of(n, fn)
+                if isinstance(n.func, ast.Attribute) and n.func.attr in _SELF_MUTATORS and _rooted_at(n.func.value, me) and st is not None:
+                    out.append((None, st, n))
+                elif isinstance(n.func, ast.Name) and n.func.id in ("setattr", "delattr") and n.args and _rooted_at(n.args[0], me) and st is not None:
+                    out.append((None, st, n))
+        return out
+
+    def _stmt_of(self, node: ast.AST, fn: ast.AST) -> Optional[ast.stmt]:
+        if isinstance(node, ast.stmt):
+            return node
+        for p in self.mod.parents(node):
+            if p is fn:
+                return None
+            if isinstance(p, ast.stmt):
+                return p
+        return None
+
+    def _resets(self, stmts: list[ast.stmt], me: str, attr: str, depth: int = 0) -> bool:
+        for s in stmts:
+            if isinstance(s, ast.Assign) and _is_none(s.value) and any(
+                    isinstance(t, ast.Attribute) and t.attr == attr and isinstance(t.value, ast.Name) and t.value.id == me for t in s.targets):
+                return True
+            if isinstance(s, ast.AnnAssign) and _is_none(s.value) and isinstance(s.target, ast.Attribute) and s.target.attr == attr \
+                    and isinstance(s.target.value, ast.Name) and s.target.value.id == me:
+                return True
+            if isinstance(s, ast.Expr) and isinstance(s.value, ast.Call) and depth < 2:
+                h = self._callee(s.value, me)
+                if h is not None and not any(isinstance(x, (ast.Yield, ast.YieldFrom)) for x in own_nodes(h)) and params_of(h) \
+                        and self._resets(h.body, params_of(h)[0], attr, depth + 1):
+                    return True
+        return False
+
+    def _callee(self, c: ast.Call, me: str) -> Optional[ast.FunctionDef]:
+        if isinstance(c.func, ast.Attribute) and isinstance(c.func.value, ast.Name) and c.func.value.id == me:
+            return self.methods.get(c.func.attr)
+        return None
+
+    def taken_back(self, fn: ast.FunctionDef, st: ast.stmt, attr: Optional[str], in_front_counts: bool = True) -> bool:
+        """the statement st of fn (a write of attribute attr, or a call that performs one) is covered by a finally that resets attr;
+        in_front_counts: standing directly in front of the try is as good as standing in it (nothing can happen in between)"""
+        if attr is None:
+            return False
+        me = params_of(fn)[0]
+        child: ast.AST = st
+        for p in [x for x in self.mod.parents(st)]:
+            if isinstance(p, (ast.Try, getattr(ast, "TryStar", ast.Try))) and p.finalbody and not any(child is s for s in p.finalbody):
+                if self._resets(p.finalbody, me, attr):
+                    return True
+            # directly in front of such a try, in the same block
+            for fld in ("body", "orelse", "finalbody"):
+                blk = getattr(p, fld, None)
+                if isinstance(blk, list) and any(child is s for s in blk):
+                    i = [k for k, s in enumerate(blk) if s is child][0]
+                    for nxt in blk[i + 1:]:
+                        if isinstance(nxt, (ast.Try, getattr(ast, "TryStar", ast.Try))) and nxt.finalbody and self._resets(nxt.finalbody, me, attr):
+                            if child is st and in_front_counts:
+                                return True
+                            break
+                        if isinstance(nxt, ast.Pass) or isinstance(nxt, (ast.Assign, ast.AnnAssign)) and isinstance(getattr(nxt, "value", None), (ast.Name, ast.Constant)) \
+                                and all(isinstance(t, ast.Attribute) and isinstance(t.value, ast.Name) and t.value.id == me
+                                        for t in (nxt.targets if isinstance(nxt, ast.Assign) else [nxt.target])):
+                            continue
+                        break
+            if p is fn:
+                break
+            child = p
+        return False
+
+    # -- through the calls
+    def left_behind(self, fn: ast.FunctionDef, depth: int = 0, stack: tuple = ()) -> list[tuple[Optional[str], ast.AST, ast.FunctionDef]]:
+        """(attribute | None, construct, function it is in) of every write that a call of fn performs and does not take back"""
+        if not params_of(fn):
+            return []
+        me = params_of(fn)[0]
+        if not any(fn is v for v in self.visited):
+            self.visited.append(fn)
+        out: list[tuple[Optional[str], ast.AST, ast.FunctionDef]] = []
+        for attr, st, what in self.writes(fn):
+            self.n_writes += 1
+            if not self.taken_back(fn, st, attr):
+                out.append((attr, what, fn))
+        if depth >= 4:
+            return out
+        for c in own_nodes(fn):
+            if not isinstance(c, ast.Call):
+                continue
+            h = self._callee(c, me)
+            if h is None or h is fn or any(h is s for s in stack):
+                continue
+            st = self._stmt_of(c, fn)
+            for attr, what, where in self.left_behind(h, depth + 1, stack + (fn,)):
+                # the call is as good as the write itself only where the write is the last thing the callee does (a plain call
+                # statement; not the entry of a `with`, whose block runs - and may raise - before the next statement does)
+                last = where is h and isinstance(st, ast.Expr) and st.value is c and bool(h.body) and (
+                    what is h.body[-1] or self._stmt_of(what, h) is h.body[-1])
+                if st is not None and self.taken_back(fn, st, attr, in_front_counts=last):
+                    continue
+                out.append((attr, what, where))
+        return out
